@@ -74,3 +74,26 @@ func VerifMetricsMiddleware() {
 	vnd.Cover(ctx.IsAborted(), "rejected request aborted")
 	vnd.Cover(!ctx.IsAborted(), "admitted request proceeds")
 }
+
+// VerifMetricsRoutes: every route of the router Metrics.Initialize builds, asked by a refused client.
+func VerifMetricsRoutes() {
+	gin.SetMode(gin.ReleaseMode)
+	am := &verifAuth{outcome: 1 + vnd.Choose("refusal", 2)}
+	m := &Metrics{Address: "127.0.0.1:0", ReadTimeout: conf.Duration(10e9), WriteTimeout: conf.Duration(10e9), AuthManager: am, Parent: verifC04Log{}}
+	if m.Initialize() != nil {
+		vnd.Assume(false)
+	}
+	router, ok := m.httpServer.Handler.(*gin.Engine)
+	vnd.Assert(ok, "the metrics server serves a gin router")
+	routes := router.Routes()
+	vnd.Assert(len(routes) >= 1, "the router lists its routes")
+	rt := routes[vnd.Choose("route", len(routes))]
+	w := httptest.NewRecorder()
+	req := &http.Request{Method: rt.Method, URL: &url.URL{Path: rt.Path}, Header: http.Header{}, RemoteAddr: "192.0.2.7:4455", Body: http.NoBody}
+	faulted := vnd.Panics(func() { router.ServeHTTP(w, req) })
+	vnd.Assert(!faulted && am.calls == 1 && am.last.Action == conf.AuthActionMetrics && w.Code == http.StatusUnauthorized, "every metrics route answers a refused client with 401 without running its handler")
+	vnd.Cover(true, "route asked")
+	if !vnd.Symbolic() {
+		m.Close()
+	}
+}
